@@ -161,6 +161,17 @@ theorem le_capFromBitLen_mul (hw : 0 < w) (len : Nat) : len ≤ capFromBitLen w 
   · have : (len / w + 1) * w = w * (len / w) + w := by rw [Nat.mul_comm, Nat.mul_add, Nat.mul_one]
     omega
 
+/-- the word reads `self.data[i + offset]` of both `copy_range` loops are in bounds (no Rust panic) -/
+theorem copyRange_read_inbounds (s : Raw w) (st en i : Nat) (hw : 0 < w) (hc : s.length ≤ s.data.size * w)
+    (hen : en ≤ s.length) (hi : i < capFromBitLen w (en - st)) : i + st / w < s.data.size := by
+  unfold capFromBitLen at hi
+  have h1 : (i + 1) * w ≤ en - st + w - 1 := (Nat.le_div_iff_mul_le hw).mp hi
+  rw [Nat.add_mul, Nat.one_mul] at h1
+  have es := idx_eq (w := w) st
+  have h2 : (i + st / w) * w < s.data.size * w := by
+    rw [Nat.add_mul, Nat.mul_comm (st / w) w]; omega
+  exact Nat.lt_of_mul_lt_mul_right h2
+
 -- ---- from words to bits -------------------------------------------------------------------------------
 theorem bitAt_of_words (A ws : Array (BitVec w)) (G : Nat → BitVec w) (st n i : Nat) (hw : 0 < w)
     (hA : ∀ k, wd A k = if k < n then G k else 0#w)
@@ -285,15 +296,38 @@ theorem copyRange_length (s : Raw 64) (st en : Nat) (hse : st ≤ en) :
 theorem copyRange_size (s : Raw 64) (st en : Nat) (hse : st ≤ en) :
     (copyRange s st en).data.size = capFromBitLen 64 (en - st) := by
   unfold copyRange maskLast
-  simp only [Nat.min_eq_left hse, Array.size_modify, Array.size_ofFn]
+  simp only [Array.size_modify, Array.size_ofFn, Nat.min_eq_left hse]
 
-theorem copyRange_bits (s : Raw 64) (st en i : Nat) (hse : st ≤ en) :
-    bitAt (copyRange s st en).data i = (decide (i < en - st) && bitAt s.data (st + i)) := by
+/-- `maskLast` on an array of exactly `capFromBitLen 64 len` words holding a shifted copy -/
+theorem maskLast_bits (A ws : Array (BitVec 64)) (st len i : Nat)
+    (hsz : A.size = capFromBitLen 64 len)
+    (hA : ∀ j, bitAt A j = (decide (j < capFromBitLen 64 len * 64) && bitAt ws (st + j))) :
+    bitAt (maskLast A len) i = (decide (i < len) && bitAt ws (st + i)) := by
   have hw : 0 < 64 := by omega
-  have hwords : ∀ j, bitAt (Array.ofFn (n := capW (en - st)) fun i =>
-        (wd s.data (i.val + st / 64) >>> (st % 64)) ||| (wd s.data (i.val + st / 64 + 1) <<< (64 - st % 64))) j =
-      (decide (j < capFromBitLen 64 (en - st) * 64) && bitAt s.data (st + j)) := by
-    intro j
+  unfold maskLast
+  rw [bitAt_modify_lastBits (hw := hw)]
+  · rw [hA]
+    have := le_capFromBitLen_mul hw len
+    by_cases hi : i < len
+    · have : i < capFromBitLen 64 len * 64 := by omega
+      simp [hi, this]
+    · simp [hi]
+  · intro h0
+    have := capFromBitLen_eq hw len
+    simp only [h0, if_false] at this
+    omega
+  · intro j hj
+    rw [hA]
+    have : ¬ j < capFromBitLen 64 len * 64 := by omega
+    simp [this]
+
+theorem copyRange_bits' (s : Raw 64) (st en i : Nat) :
+    bitAt (copyRange s st en).data i = (decide (i < en - min st en) && bitAt s.data (st + i)) := by
+  have hw : 0 < 64 := by omega
+  unfold copyRange
+  apply maskLast_bits _ s.data st (en - min st en) i
+  · simp only [Array.size_ofFn]
+  · intro j
     apply bitAt_of_words _ s.data
       (fun i => (wd s.data (i + st / 64) >>> (st % 64)) ||| (wd s.data (i + st / 64 + 1) <<< (64 - st % 64)))
       st _ j hw
@@ -303,23 +337,10 @@ theorem copyRange_bits (s : Raw 64) (st en i : Nat) (hse : st ≤ en) :
       split <;> simp
     · intro k j hj
       exact getLsbD_slideWord s.data st k j hw hj
-  unfold copyRange maskLast
-  simp only [Nat.min_eq_left hse, Array.size_ofFn]
-  rw [bitAt_modify_lastBits (hw := hw)]
-  · rw [show bitAt _ i = _ from hwords i]
-    have := le_capFromBitLen_mul hw (en - st)
-    by_cases hi : i < en - st
-    · have : i < capFromBitLen 64 (en - st) * 64 := by omega
-      simp [hi, this]
-    · simp [hi]
-  · intro h0
-    have := capFromBitLen_eq hw (en - st)
-    simp only [h0, if_false] at this
-    unfold capW; omega
-  · intro j hj
-    rw [show bitAt _ j = _ from hwords j]
-    have : ¬ j < capFromBitLen 64 (en - st) * 64 := by omega
-    simp [this]
+
+theorem copyRange_bits (s : Raw 64) (st en i : Nat) (hse : st ≤ en) :
+    bitAt (copyRange s st en).data i = (decide (i < en - st) && bitAt s.data (st + i)) := by
+  rw [copyRange_bits', Nat.min_eq_left hse]
 
 theorem copyRange_refines (s : Raw 64) (st en : Nat) (hse : st ≤ en) :
     (copyRange s st en).Inv ∧ (copyRange s st en).abs = s.abs.copyRange st en := by
@@ -329,5 +350,114 @@ theorem copyRange_refines (s : Raw 64) (st en : Nat) (hse : st ≤ en) :
   · intro i; exact copyRange_bits s st en i hse
 
 end Bvd
+
+-- ---- the list-of-bits view ------------------------------------------------------------------------------
+namespace BV
+
+theorem length_bits (a : BV) : a.bits.length = a.len := by
+  simp [bits]
+
+theorem getElem_bits (a : BV) (i : Nat) (h : i < a.bits.length) : a.bits[i] = a.bit i := by
+  simp [bits]
+
+/-- `copy_range` is `drop` then `take` on the list of bits -/
+theorem copyRange_bits_list (a : BV) (st en : Nat) (hen : en ≤ a.len) :
+    (copyRange a st en).bits = (a.bits.drop st).take (en - st) := by
+  apply List.ext_getElem
+  · simp only [length_bits, List.length_take, List.length_drop]
+    show en - st = _
+    omega
+  · intro i h1 h2
+    rw [getElem_bits, copyRange_bit, List.getElem_take, List.getElem_drop, getElem_bits]
+    rw [length_bits] at h1
+    have : i < en - st := h1
+    simp [this]
+
+theorem append_bit (lo hi : BV) (h : lo.WF) (i : Nat) :
+    (append lo hi).bit i = if i < lo.len then lo.bit i else hi.bit (i - lo.len) := by
+  unfold append bit
+  simp only
+  rw [Nat.add_comm, Nat.mul_comm]
+  exact Nat.testBit_two_pow_mul_add _ h _
+
+/-- `append` is list concatenation (low part first) -/
+theorem bits_append (lo hi : BV) (h : lo.WF) : (append lo hi).bits = lo.bits ++ hi.bits := by
+  apply List.ext_getElem
+  · simp only [length_bits, List.length_append]
+    rfl
+  · intro i h1 h2
+    rw [getElem_bits, append_bit lo hi h, List.getElem_append]
+    simp only [length_bits, getElem_bits]
+    split <;> rfl
+
+theorem splitOff_fst_wf (a : BV) (i : Nat) : (splitOff a i).1.WF := by
+  unfold splitOff WF
+  exact Nat.mod_lt _ (Nat.two_pow_pos i)
+
+/-- `split_off` loses nothing: re-appending the two halves gives the original vector -/
+theorem append_splitOff (a : BV) (i : Nat) (h : a.WF) (hi : i ≤ a.len) :
+    append (splitOff a i).1 (splitOff a i).2 = a := by
+  apply ext_bits
+  · show i + (a.len - i) = a.len
+    omega
+  · intro j
+    rw [append_bit _ _ (splitOff_fst_wf a i)]
+    show (if j < i then (a.val % 2 ^ i).testBit j else (copyRange a i a.len).bit (j - i)) = a.bit j
+    split
+    · rename_i hj
+      rw [Nat.testBit_mod_two_pow]; simp [hj, bit]
+    · rename_i hj
+      rw [copyRange_bit]
+      have e : i + (j - i) = j := by omega
+      rw [e]
+      by_cases hl : j < a.len
+      · have : j - i < a.len - i := by omega
+        simp [this]
+      · have : ¬ j - i < a.len - i := by omega
+        have hz : a.bit j = false := by
+          unfold bit
+          exact Nat.testBit_lt_two_pow (Nat.lt_of_lt_of_le h (Nat.pow_le_pow_right (by omega) (by omega)))
+        simp [this, hz]
+
+theorem splitOff_bits (a : BV) (i : Nat) (h : a.WF) (hi : i ≤ a.len) :
+    (splitOff a i).1.bits ++ (splitOff a i).2.bits = a.bits := by
+  rw [← bits_append _ _ (splitOff_fst_wf a i), append_splitOff a i h hi]
+
+theorem first_eq_head? (a : BV) : a.first = a.bits.head? := by
+  unfold first
+  rw [List.head?_eq_getElem?]
+  by_cases h : a.len = 0
+  · simp [h, bits]
+  · have : 0 < a.bits.length := by rw [length_bits]; omega
+    rw [List.getElem?_eq_getElem this, getElem_bits]; simp [h]
+
+theorem last_eq_getLast? (a : BV) : a.last = a.bits.getLast? := by
+  unfold last
+  rw [List.getLast?_eq_getElem?, length_bits]
+  by_cases h : a.len = 0
+  · simp [h, bits]
+  · have : a.len - 1 < a.bits.length := by rw [length_bits]; omega
+    rw [List.getElem?_eq_getElem this, getElem_bits]; simp [h]
+
+end BV
+
+/-- the bodies of `first` / `last` (`if len > 0 { Some(get(..)) } else { None }`, as in `Step.lean`) -/
+theorem Raw.first_refines (s : Raw w) (hw : 0 < w) :
+    (if s.length > 0 then some (s.get 0) else none) = s.abs.first := by
+  unfold BV.first
+  rw [Raw.abs_len, Raw.abs_bit _ _ hw, Raw.get_eq_bitAt]
+  by_cases h : s.length = 0
+  · simp [h]
+  · have : s.length > 0 := by omega
+    simp [h, this]
+
+theorem Raw.last_refines (s : Raw w) (hw : 0 < w) :
+    (if s.length > 0 then some (s.get (s.length - 1)) else none) = s.abs.last := by
+  unfold BV.last
+  rw [Raw.abs_len, Raw.abs_bit _ _ hw, Raw.get_eq_bitAt]
+  by_cases h : s.length = 0
+  · simp [h]
+  · have : s.length > 0 := by omega
+    simp [h, this]
 
 end Bva
